@@ -4,6 +4,7 @@
 //! usage: harness gen <profile> [--seed N] [--tier quick|thorough] [--shard i/n]
 //!        harness exec            (reads input lines on stdin, re-executes them)
 
+mod c12;
 mod c15;
 mod rng;
 
@@ -23,6 +24,7 @@ pub fn exec_line(line: &str, out: &mut Out) {
     let head = line.split(' ').next().unwrap_or("");
     match head {
         "c15dec" | "c15rt" => c15::exec(line, out),
+        "c12cmp" | "c12ch" | "c12smt" => c12::exec(line, out),
         _ => {
             writeln!(out, "# unknown input line: {line}").unwrap();
         }
@@ -65,6 +67,7 @@ fn main() {
             }
             match profile.as_str() {
                 "c15" => c15::generate(&opts, &mut out),
+                "c12" => c12::generate(&opts, &mut out),
                 other => {
                     eprintln!("unknown profile {other}");
                     std::process::exit(2);
